@@ -384,6 +384,7 @@ pub fn run_layer_a(seed: u64, tier_name: &str, ev: &mut Evidence) -> Vec<Violati
     let outs: Vec<ProgOut> = par_map(specs.len(), |i| {
         let (name, spec, case) = &specs[i];
         let mut rng = Rng::for_case(seed, "C08", ENGINE_A, *case);
+        super::util::breadcrumb("C08", json!({"kind": "c08", "program": spec.to_json(), "seed": seed, "case": case, "tier": tier_name}));
         exercise_program(name, spec, &mut rng, t.enumerate_cap, t.random_plans)
     });
 
@@ -447,4 +448,12 @@ pub fn run_layer_a(seed: u64, tier_name: &str, ev: &mut Evidence) -> Vec<Violati
 pub fn replay(v: &Value) -> Result<Option<(String, String)>, String> {
     let case = StreamCase::from_json(v).ok_or("malformed stream-sim replay")?;
     replay_case(&case)
+}
+
+pub fn replay_unit(u: &Value) -> Result<(), String> {
+    let spec = ProgSpec::from_json(u.get("program").ok_or("no program")?).ok_or("bad program")?;
+    let t = tier(u.get("tier").and_then(|x| x.as_str()).unwrap_or("quick"));
+    let mut rng = Rng::for_case(u.get("seed").and_then(|x| x.as_u64()).unwrap_or(1), "C08", ENGINE_A, u.get("case").and_then(|x| x.as_u64()).unwrap_or(0));
+    let _ = exercise_program("replayed-unit", &spec, &mut rng, t.enumerate_cap, t.random_plans);
+    Ok(())
 }
